@@ -1,6 +1,6 @@
 (* Entry points of the executable model, addressed by a numeric code (table mirrored in the harness). *)
 From Coq Require Import ZArith List.
-From WPU Require Import Common.Val Model.Buffers Model.Generic Model.Spans Model.IntervalMap Model.Combos.
+From WPU Require Import Common.Val Model.Buffers Model.Generic Model.Spans Model.IntervalMap Model.Combos Model.DLL.
 Import ListNotations.
 Open Scope Z_scope.
 
@@ -10,7 +10,8 @@ Definition table : list (Z * (val -> val)) :=
     (1904, run_search_sub_seq); (1905, run_compare_pos); (1906, run_batcher); (1907, run_batcher_iter);
     (1908, run_batcher_tuple); (1909, run_batcher_iter_tuple); (1910, run_roman_all);
     (1000, run_spans); (1600, run_imap);
-    (1700, run_sorted_combinations); (1701, run_min_combinations) ].
+    (1700, run_sorted_combinations); (1701, run_min_combinations);
+    (800, run_dll) ].
 
 Fixpoint lookup (t : list (Z * (val -> val))) (code : Z) : option (val -> val) :=
   match t with
